@@ -129,7 +129,7 @@ func ValOf(v reflect.Value) ref.Val {
 	case timeType:
 		t := v.Interface().(time.Time)
 		name, off := t.Zone()
-		return ref.Val{K: 't', N: uint64(t.Unix()), Ns: int32(t.Nanosecond()), Off: int32(off), S: name}
+		return ref.Val{K: 't', N: uint64(t.Unix()), Ns: int32(t.Nanosecond()), Off: int64(off), S: name}
 	case latType:
 		l := v.Interface().(fit.Latitude)
 		return ref.Val{K: 'l', N: uint64(int64(l.Semicircles())), Inv: l.Invalid()}
